@@ -14,7 +14,7 @@ import (
 	"strings"
 )
 
-const jsonLaw = "encoding/json: Unmarshal into a struct sets exactly the fields whose JSON key is present to a value that is a function of (document, key, field type), leaves the others, and fails or succeeds as a function of (document, target type); custom UnmarshalJSON methods are covered by the same law"
+const jsonLaw = "encoding/json: Unmarshal into a struct sets exactly the fields whose JSON key is present to a value that is a function of (document, key, field type), leaves the others, and fails or succeeds as a function of (document, target type); custom UnmarshalJSON methods are covered by the same law; decoded maps and slices are containers allocated by the decoder (no caller-visible object is written), nested maps are nil or pairwise distinct"
 
 // jsonKey returns the JSON key of a struct field ("" = skipped).
 func jsonKey(f *types.Var, tag string) (string, bool) {
@@ -156,6 +156,7 @@ func (x *Exec) jsonUnmarshal(fr *Frame, st *State, args []*Value, resT types.Typ
 				junk := x.freshValue("json_partial", st2, st.guard)
 				x.boundRefs(junk, x.allocNow())
 				x.store(st, np, x.iteValueLoose(ok, dec, junk))
+				x.jsonContainerFacts(st, dec)
 				x.store(st, ptr.P, &Value{K: KPtr, T: t, P: np})
 				errV := x.freshValue("json_err", resT, st.guard)
 				x.assume(st, Eq(Eq(errV.Tag, IntLit(0)), ok))
@@ -170,9 +171,61 @@ func (x *Exec) jsonUnmarshal(fr *Frame, st *State, args []*Value, resT types.Typ
 	junk := x.freshValue("json_partial", t, st.guard)
 	x.boundRefs(junk, x.allocNow())
 	x.store(st, ptr.P, x.iteValueLoose(ok, dec, junk))
+	x.jsonContainerFacts(st, dec)
 	errV := x.freshValue("json_err", resT, st.guard)
 	x.assume(st, Eq(Eq(errV.Tag, IntLit(0)), ok))
 	return errV
+}
+
+// jsonContainerFacts: the decoder allocates every nested container separately, so the inner
+// maps held by a decoded map[string]C are nil (JSON null) or pairwise distinct, distinct from the
+// outer map and exist now (part of the assumed decoding law).
+func (x *Exec) jsonContainerFacts(st *State, v *Value) {
+	switch v.K {
+	case KStruct, KTuple:
+		for _, f := range v.Fields {
+			x.jsonContainerFacts(st, f)
+		}
+		return
+	case KSlice:
+		x.jsonFreshUsed = true
+		x.facts = append(x.facts, Or(Eq(v.Ref, x.null()), x.ctx.App("jsonFresh", BoolSort, v.Ref)))
+		return
+	}
+	if _, isMap := under(v.T).(*types.Map); isMap && v.Term != nil {
+		x.jsonFreshUsed = true
+		x.facts = append(x.facts, Or(Eq(v.Term, x.null()), x.ctx.App("jsonFresh", BoolSort, v.Term)))
+	}
+	m, ok := under(v.T).(*types.Map)
+	if !ok || v.Term == nil {
+		return
+	}
+	if len(leavesOf(m.Key())) != 1 {
+		return
+	}
+	var refLeaf string
+	switch under(m.Elem()).(type) {
+	case *types.Map:
+		refLeaf = ""
+	default:
+		return
+	}
+	mi := x.mapInfoOf(v.T)
+	ks := mi.kLeaves[0].Sort
+	pres := x.mapPresent(st, v.T, v.Term)
+	var path string
+	for _, l := range leavesOf(mi.vT) {
+		path = l.Path
+	}
+	_ = refLeaf
+	vals := Select(x.heapArr(st, "MV:"+mi.key+"/"+path, ArraySort(RefSort, ArraySort(ks, RefSort))), v.Term)
+	pn := x.name("jmapP", pres)
+	vn := x.name("jmapV", vals)
+	k1 := BoundVar("jk1", ks)
+	k2 := BoundVar("jk2", ks)
+	x.facts = append(x.facts,
+		Forall([]*Term{k1, k2}, Implies(And(Select(pn, k1), Select(pn, k2), Neq(k1, k2), Neq(Select(vn, k1), x.null())), Neq(Select(vn, k1), Select(vn, k2))), []*Term{Select(vn, k1), Select(vn, k2)}),
+		Forall([]*Term{k1}, Implies(Select(pn, k1), And(Or(Eq(Select(vn, k1), x.null()), x.ctx.App("jsonFresh", BoolSort, Select(vn, k1))), Neq(Select(vn, k1), v.Term), Le(x.ctx.App("allocId", IntSort, Select(vn, k1)), x.allocNow()))), []*Term{Select(vn, k1)}))
 }
 
 func ptrBase(p *Pointer, x *Exec) *Term {
